@@ -511,60 +511,48 @@ func visitInstr(fr *frame, instr ssa.Instruction) continuation {
 	case *ssa.Select:
 		// modelled channels: the first ready case in source order wins; otherwise default;
 		// a blocking select with nothing ready ends the path ("would block").
-		firstReady := func() int {
+		var chosen int
+		var recv value
+		recvOk := false
+		if sch != nil {
+			// thread mode: threadchan.go
+			cases := make([]selCase, len(instr.States))
+			for i, st := range instr.States {
+				ch := fr.get(st.Chan).(*chanv)
+				cases[i] = selCase{ch: ch, send: st.Dir != types.RecvOnly, elem: st.Chan.Type().Underlying().(*types.Chan).Elem()}
+				if cases[i].send {
+					cases[i].val = fr.get(st.Send)
+				}
+			}
+			chosen, recv, recvOk = selectT(cases, instr.Blocking)
+		} else {
+			chosen = -1
 			for i, st := range instr.States {
 				ch := fr.get(st.Chan).(*chanv)
 				if st.Dir == types.RecvOnly {
 					if ch.ready() {
-						return i
-					}
-				} else if sch != nil {
-					if ch.sendReady() {
-						return i
+						chosen = i
+						break
 					}
 				} else if ch != nil {
-					return i
+					chosen = i
+					break
 				}
 			}
-			return -1
-		}
-		chosen := firstReady()
-		if chosen < 0 && instr.Blocking {
-			if sch != nil {
-				// thread mode: park until a case becomes ready; while parked this thread counts
-				// as a waiting receiver on its receive cases (lets unbuffered senders proceed)
-				var waitOn []*chanv
-				for _, st := range instr.States {
-					if ch := fr.get(st.Chan).(*chanv); ch != nil && st.Dir == types.RecvOnly {
-						ch.recvWaiters++
-						waitOn = append(waitOn, ch)
-					}
-				}
-				func() {
-					defer func() {
-						for _, ch := range waitOn {
-							ch.recvWaiters--
-						}
-					}()
-					sch.block("select", func() bool { return firstReady() >= 0 })
-				}()
-				chosen = firstReady()
-			} else {
+			if chosen < 0 && instr.Blocking {
 				if tryRunGoroutines() {
 					return visitInstr(fr, instr)
 				}
 				panic(pathAbort{"select would block", false})
 			}
-		}
-		recvOk := false
-		var recv value
-		if chosen >= 0 {
-			st := instr.States[chosen]
-			ch := fr.get(st.Chan).(*chanv)
-			if st.Dir == types.RecvOnly {
-				recv, recvOk = ch.recv(st.Chan.Type().Underlying().(*types.Chan).Elem())
-			} else {
-				ch.send(fr.get(st.Send))
+			if chosen >= 0 {
+				st := instr.States[chosen]
+				ch := fr.get(st.Chan).(*chanv)
+				if st.Dir == types.RecvOnly {
+					recv, recvOk = ch.recv(st.Chan.Type().Underlying().(*types.Chan).Elem())
+				} else {
+					ch.send(fr.get(st.Send))
+				}
 			}
 		}
 		r := tuple{chosen, recvOk}
